@@ -300,21 +300,15 @@ func c01Evaluate(run *c01Run) (string, []Fail) {
 	// per output accounts; the projection is taken from the first output, the others must agree
 	var proj string
 	for oi, o := range run.Outputs {
-		acct := c01AccountOutput(run, o, &fails)
+		c01AccountOutput(run, o, &fails)
 		counts := map[c01Stream]int{}
 		for st, rec := range run.Records {
 			if !rec.Delivered() {
 				continue
 			}
-			ok := acct.Acked[st] || acct.Disk[st]
-			if !ok && acct.Covered {
-				for _, m := range acct.Missing {
-					if m == st {
-						ok = true
-					}
-				}
-			}
-			if ok {
+			// every record read by the agent is accounted for in the projection: observed (ACKed / on disk) or missing;
+			// whether the missing ones are covered by the drop counters is the oracle's verdict, not the projection's
+			if _, sent := run.SendGen[st]; sent {
 				counts[c01Stream{st.Conn, sc.pipeNumOfID(strings.Join(rec.KeyValues(sc.keys()), ","))}]++
 			}
 		}
@@ -337,8 +331,6 @@ func c01Evaluate(run *c01Run) (string, []Fail) {
 		}
 		if oi == 0 {
 			proj = sb.String()
-		} else if sb.String() != proj {
-			fails = append(fails, Fail{"c01:outputs-differ", fmt.Sprintf("seed %d: accounted records differ between outputs: %s vs %s", sc.Seed, proj, sb.String())})
 		}
 	}
 	// filtered / malformed records as COUNTED BY THE AGENT (summed over generations)
